@@ -233,9 +233,13 @@ class Calls:
         info = w.classes.get(cls)
         if info is None:
             raise Unsupported(f'method {mname} of unknown class {cls}')
-        abstract = info.get('abstract') and not static
+        abstract = (info.get('abstract') or mname in info.get('virtual', ())) and not static
         if abstract:
             c = w.contracts.get(f'iface::{cls}.{mname}')
+            if c is None and w.contracts.get(f'{cls}.{mname}', {}).get('file'):
+                # a concrete method of the abstract base, under its own verified contract
+                # (subclasses overriding it are assumed to keep that contract)
+                c = w.contracts[f'{cls}.{mname}']
             if c is None:
                 raise Unsupported(f'no interface contract iface::{cls}.{mname}')
             return w.apply_contract(it, c, {'self': obj}, args, kwargs, node)
@@ -340,7 +344,7 @@ class Calls:
             if any(isinstance(d, ast.Name) and d.id == 'property' for d in fdef.decorator_list):
                 return self.call_method(it, obj, cls, name, [], {}, node)
             return PV('bound', (obj, cls, name))
-        if w.classes[cls].get('abstract') and f'iface::{cls}.{name}' in w.contracts:
+        if (w.classes[cls].get('abstract') or name in w.classes[cls].get('virtual', ())) and f'iface::{cls}.{name}' in w.contracts:
             return PV('bound', (obj, cls, name))
         if f'{cls}.{name}' in w.contracts:
             return PV('bound', (obj, cls, name))
@@ -410,7 +414,7 @@ class Builtins:
     DATA_METHODS = {'items', 'keys', 'values', 'get', 'pop', 'setdefault', 'update', 'copy', 'append', 'extend',
                     'encode', 'decode', 'strip', 'startswith', 'endswith', 'split', 'join', 'replace', 'format',
                     'discard', 'add', 'remove', 'lower', 'upper', 'partition', 'rsplit', 'lstrip', 'rstrip',
-                    'index', 'insert', 'clear', 'popitem', 'isdigit', 'find', 'count'}
+                    'index', 'insert', 'clear', 'popitem', 'isdigit', 'find', 'count', 'splitlines'}
 
     def __init__(self, world):
         self.world = world
@@ -1154,9 +1158,9 @@ class Builtins:
             result, newobj = res
             if write_back is None:
                 raise Unsupported(f'mutating method .{name} on temporary')
-            it.assign(write_back, newobj)
+            it.assign(write_back, newobj, wb=True)
             if obj.src is not None and obj.src is not write_back:
-                it.assign(obj.src, newobj)
+                it.assign(obj.src, newobj, wb=True)
             return result
         return res
 
@@ -1234,6 +1238,21 @@ class Builtins:
             self.world.ops.outcome(it, [(z3.Not(present), 'KeyError'), (present, None)], 'pop key')
         val = simp(z3.Select(V.dmap(t), vals.ks(key)))
         return SV(val, O._elem_type(obj.ty)), SV(O.dict_remove(it, t, vals.ks(key)), obj.ty, obj.src)
+
+    def dm_clear(self, it, obj, a, k):
+        t = obj.t
+        kk = it.choose([V.is_DictV(t), V.is_ListV(t), V.is_SetV(t), z3.Not(z3.Or(V.is_DictV(t), V.is_ListV(t), V.is_SetV(t)))], '.clear()')
+        if kk == 0:
+            if obj.ty == 'ImmutableDict':
+                it.raise_('TypeError')
+            return SV(V.NoneV), SV(const({}), obj.ty, obj.src)
+        if kk == 1:
+            return SV(V.NoneV), SV(V.ListV(z3.Empty(vals.SeqVal)), obj.ty, obj.src)
+        if kk == 2:
+            return SV(V.NoneV), SV(V.SetV(vals.EMPTY_HAS), obj.ty, obj.src)
+        if it.feasible(V.is_ObjV(t)):
+            raise Unsupported('.clear() of object')
+        it.raise_('AttributeError')
 
     def dm_setdefault(self, it, obj, a, k):
         self._need(it, obj, V.is_DictV, '.setdefault()')
@@ -1333,6 +1352,14 @@ class Builtins:
     def dm_decode(self, it, obj, a, k):
         if obj.ty == 'b64bytes':
             return SV(obj.t)      # text of a base64 encoding is ASCII: decode is the identity on the carrier
+        o = it.split_kind(obj)
+        if O.ctor(o.t) == 'BytesV' and a and vals.tag_of(simp(a[0].t)) == 'StrV' and z3.is_string_value(simp(V.s(simp(a[0].t)))) \
+                and simp(V.s(simp(a[0].t))).as_string() == 'latin-1':
+            # latin-1 decodes every byte string; the text is not modelled beyond its length
+            L1 = self.world.uf('latin1!', [z3.SeqSort(IntS), StrS])
+            r = L1(o.t.arg(0))
+            it.assume_axiom(z3.Length(r) == z3.Length(o.t.arg(0)))
+            return SV(V.StrV(r), 'str')
         raise Unsupported('bytes.decode')
 
     def dm_strip(self, it, obj, a, k):
@@ -1377,6 +1404,18 @@ class Builtins:
         if len(a) != 2:
             raise Unsupported('str.split without separator and maxsplit')
         sep, mx = it.refine(a[0].t), it.refine(a[1].t)
+        if O.ctor(mx) == 'IntV' and z3.is_int_value(simp(mx.arg(0))) and simp(mx.arg(0)).as_long() > 1 and O.ctor(sep) == 'StrV':
+            # split(sep, n), n > 1: the pieces are not modelled, only their number (1..n+1) and kind
+            n = simp(mx.arg(0)).as_long()
+            FIRST = self.world.uf(f'split{n}_first!', [StrS, StrS, StrS])
+            REST = self.world.uf(f'split{n}_rest!', [StrS, StrS, vals.SeqVal])
+            rest = REST(V.s(obj.t), sep.arg(0))
+            j = z3.Int('j!sp')
+            it.assume_axiom(z3.And(z3.Length(rest) <= n,
+                                   z3.ForAll([j], z3.Implies(z3.And(0 <= j, j < z3.Length(rest)), V.is_StrV(rest[j])),
+                                             patterns=[rest[j]])))
+            items = z3.Concat(z3.Unit(V.StrV(FIRST(V.s(obj.t), sep.arg(0)))), rest)
+            return SV(V.ListV(items), 'list:str')
         if not (O.ctor(mx) == 'IntV' and z3.is_int_value(simp(mx.arg(0))) and simp(mx.arg(0)).as_long() == 1 and O.ctor(sep) == 'StrV'):
             raise Unsupported('str.split supports only split(sep, 1)')
         sv = V.s(obj.t)
@@ -1406,6 +1445,15 @@ class Builtins:
             it.assume_axiom(z3.Implies(z3.Contains(sv, sp), z3.And(sv == z3.Concat(h, sp, t), z3.Not(z3.Contains(h, sp)))))
             return SV(V.ListV(vals.valseq([V.BytesV(h), V.BytesV(t)])), 'list:bytes')
         return SV(V.ListV(vals.valseq([V.BytesV(sv)])), 'list:bytes')
+
+    def dm_splitlines(self, it, obj, a, k):
+        self._need(it, obj, V.is_StrV, '.splitlines()')
+        LINES = self.world.uf('splitlines!', [StrS, vals.SeqVal])
+        items = LINES(V.s(obj.t))
+        j = z3.Int('j!sl')
+        it.assume_axiom(z3.ForAll([j], z3.Implies(z3.And(0 <= j, j < z3.Length(items)), V.is_StrV(items[j])),
+                                  patterns=[items[j]]))
+        return SV(V.ListV(items), 'list:str')
 
     def dm_lower(self, it, obj, a, k):
         self._need(it, obj, V.is_StrV, '.lower()')
